@@ -4,7 +4,9 @@ import (
 	"fmt"
 	"go/ast"
 	"go/constant"
+	"go/token"
 	"go/types"
+	"golang.org/x/tools/go/packages"
 	"sort"
 	"strings"
 )
@@ -116,7 +118,9 @@ func switchClauses(c *Ctx, pkgPath, recv, fn string) ([]caseClause, *ast.FuncDec
 		}
 		return true
 	})
+	tableForm := false
 	if len(out) == 0 {
+		tableForm = true
 		// the table form: `return table[kind]` on a package-level `var table = map[TkKind]int{ K: v, … }`
 		ast.Inspect(fd.Body, func(n ast.Node) bool {
 			ix, ok := n.(*ast.IndexExpr)
@@ -148,11 +152,22 @@ func switchClauses(c *Ctx, pkgPath, recv, fn string) ([]caseClause, *ast.FuncDec
 						}
 						ktv, ok1 := p.TypesInfo.Types[kv.Key]
 						vtv, ok2 := p.TypesInfo.Types[kv.Value]
-						if !ok1 || !ok2 || ktv.Value == nil || vtv.Value == nil || namedName(ktv.Type) != "TkKind" || vtv.Value.Kind() != constant.Int {
+						if !ok1 || !ok2 || ktv.Value == nil || vtv.Value == nil || namedName(ktv.Type) != "TkKind" {
 							continue
 						}
 						k, _ := constant.Int64Val(ktv.Value)
-						v, _ := constant.Int64Val(vtv.Value)
+						var v int64
+						switch vtv.Value.Kind() {
+						case constant.Int:
+							v, _ = constant.Int64Val(vtv.Value)
+						case constant.Bool: // a set: map[TkKind]bool{ K: true, … }
+							if !constant.BoolVal(vtv.Value) {
+								continue
+							}
+							v = 1
+						default:
+							continue
+						}
 						out = append(out, caseClause{kinds: []int64{k}, ret: &v})
 					}
 					return true
@@ -161,7 +176,92 @@ func switchClauses(c *Ctx, pkgPath, recv, fn string) ([]caseClause, *ast.FuncDec
 			return true
 		})
 	}
+	if tableForm {
+		// next to a table lookup, single kinds are tested with `kind == K` (the `;` after an empty return)
+		ast.Inspect(fd.Body, func(n ast.Node) bool {
+			is, ok := n.(*ast.IfStmt)
+			if !ok {
+				return true
+			}
+			if be, ok := ast.Unparen(is.Cond).(*ast.BinaryExpr); ok && be.Op.String() == "==" {
+				for _, side := range []ast.Expr{be.X, be.Y} {
+					if tv, ok := p.TypesInfo.Types[side]; ok && tv.Value != nil && namedName(tv.Type) == "TkKind" {
+						k, _ := constant.Int64Val(tv.Value)
+						out = append(out, caseClause{kinds: []int64{k}})
+					}
+				}
+			}
+			return true
+		})
+	}
 	return out, fd, nil
+}
+
+type tokenTableEntry struct {
+	kind int64
+	str  string
+	pos  token.Pos
+}
+
+// tokenTableEntries: the entries of the package-level composite literals (map or slice) whose elements are values of
+// struct type elem, read as (the TkKind constant, the string constant) of each element
+func tokenTableEntries(p *packages.Package, elem types.Type) []tokenTableEntry {
+	var out []tokenTableEntry
+	for _, f := range p.Syntax {
+		for _, d := range f.Decls {
+			gd, ok := d.(*ast.GenDecl)
+			if !ok {
+				continue
+			}
+			for _, sp := range gd.Specs {
+				vs, ok := sp.(*ast.ValueSpec)
+				if !ok || len(vs.Values) != 1 {
+					continue
+				}
+				lit, ok := vs.Values[0].(*ast.CompositeLit)
+				if !ok {
+					continue
+				}
+				for _, el := range lit.Elts {
+					v := el
+					if kv, ok := el.(*ast.KeyValueExpr); ok {
+						v = kv.Value
+					}
+					inner, ok := v.(*ast.CompositeLit)
+					if !ok {
+						continue
+					}
+					if tv, ok := p.TypesInfo.Types[inner]; !ok || !types.Identical(tv.Type, elem) {
+						continue
+					}
+					var ent tokenTableEntry
+					haveK, haveS := false, false
+					for _, fe := range inner.Elts {
+						fv := fe
+						if kv, ok := fe.(*ast.KeyValueExpr); ok {
+							fv = kv.Value
+						}
+						tv, ok := p.TypesInfo.Types[fv]
+						if !ok || tv.Value == nil {
+							continue
+						}
+						if namedName(tv.Type) == "TkKind" {
+							ent.kind, _ = constant.Int64Val(tv.Value)
+							haveK = true
+						} else if tv.Value.Kind() == constant.String {
+							ent.str = constant.StringVal(tv.Value)
+							haveS = true
+						}
+					}
+					if haveK && haveS {
+						ent.pos = inner.Pos()
+						out = append(out, ent)
+					}
+				}
+			}
+		}
+	}
+	return out
 }
 
 var ruleTab = &Rule{
@@ -249,6 +349,25 @@ var ruleTab = &Rule{
 				}
 				ktv, ok1 := p.TypesInfo.Types[call.Args[0]]
 				stv, ok2 := p.TypesInfo.Types[call.Args[1]]
+				if ok1 && ktv.Value == nil {
+					// setNowToken(e.kind, e.str) with e an entry of a package-level table of (kind, text) pairs: every
+					// entry of the table is a producing site
+					if sel, ok := ast.Unparen(call.Args[0]).(*ast.SelectorExpr); ok {
+						if et, ok := p.TypesInfo.Types[sel.X]; ok {
+							for _, ent := range tokenTableEntries(p, et.Type) {
+								produced[ent.kind] = true
+								nSites++
+								key := fmt.Sprintf("TAB/K2:setNowToken:%s", sp[ent.kind])
+								if sp[ent.kind] != ent.str {
+									obs = append(obs, Ob{Key: key, Site: c.Pos(ent.pos), Verdict: VIOLATION, Note: fmt.Sprintf("token kind %q is produced with the text %q", sp[ent.kind], ent.str)})
+								} else {
+									obs = append(obs, Ob{Key: key, Site: c.Pos(ent.pos), Verdict: OK})
+								}
+							}
+						}
+					}
+					return true
+				}
 				if !ok1 || ktv.Value == nil {
 					return true
 				}
@@ -389,34 +508,34 @@ var ruleTab = &Rule{
 				}
 			}
 			for _, body := range bodies {
-			ast.Inspect(body, func(n ast.Node) bool {
-				switch x := n.(type) {
-				case *ast.IfStmt:
-					set := map[string]bool{}
-					ast.Inspect(x.Cond, func(m ast.Node) bool {
-						if be, ok := m.(*ast.BinaryExpr); ok && be.Op.String() == "==" {
-							for _, side := range []ast.Expr{be.X, be.Y} {
-								if tv, ok := pp.TypesInfo.Types[side]; ok && tv.Value != nil && namedName(tv.Type) == "TkKind" {
-									v, _ := constant.Int64Val(tv.Value)
-									set[sp[v]] = true
+				ast.Inspect(body, func(n ast.Node) bool {
+					switch x := n.(type) {
+					case *ast.IfStmt:
+						set := map[string]bool{}
+						ast.Inspect(x.Cond, func(m ast.Node) bool {
+							if be, ok := m.(*ast.BinaryExpr); ok && be.Op.String() == "==" {
+								for _, side := range []ast.Expr{be.X, be.Y} {
+									if tv, ok := pp.TypesInfo.Types[side]; ok && tv.Value != nil && namedName(tv.Type) == "TkKind" {
+										v, _ := constant.Int64Val(tv.Value)
+										set[sp[v]] = true
+									}
 								}
 							}
+							return true
+						})
+						if len(set) > 0 {
+							condSets = append(condSets, sortedKeys(set))
 						}
-						return true
-					})
-					if len(set) > 0 {
-						condSets = append(condSets, sortedKeys(set))
-					}
-				case *ast.CallExpr:
-					if fn := calleeOf(pp.TypesInfo, x); isFunc(fn, parserPkg, "Parser", "parseSubExp") && len(x.Args) == 1 {
-						if tv, ok := pp.TypesInfo.Types[x.Args[0]]; ok && tv.Value != nil {
-							v, _ := constant.Int64Val(tv.Value)
-							unaryLimit = &v
+					case *ast.CallExpr:
+						if fn := calleeOf(pp.TypesInfo, x); isFunc(fn, parserPkg, "Parser", "parseSubExp") && len(x.Args) == 1 {
+							if tv, ok := pp.TypesInfo.Types[x.Args[0]]; ok && tv.Value != nil {
+								v, _ := constant.Int64Val(tv.Value)
+								unaryLimit = &v
+							}
 						}
 					}
-				}
-				return true
-			})
+					return true
+				})
 			}
 			has := func(want []string) bool {
 				w := append([]string{}, want...)
